@@ -320,4 +320,36 @@ theorem brace_examples :
     braceExpand 3 "{a,b".toList = ["{a,b".toList] ∧
     braceExpand 3 "{a/b,c}/d".toList = ["a/b/d".toList, "c/d".toList] := by decide
 
+/-- **The cgroup-fs root is a place, not a pattern.**  `resolveWildcard` hands glob(3) the root with every character glob
+interprets (`\\ * ? [ {`) escaped (`globEscape`) in front of the relative path, which alone is the pattern: a component of the
+escaped root matches exactly the corresponding component of the root, also under the leading-period rule glob applies to
+directory entries - so the walk reaches the root directory and no directory beside it, and the model's `resolve t fsAt`, which
+takes `fsAt` as a list of literal names, is what the code computes whatever characters the root's name contains.  (On the
+pinned tree the root went to glob unescaped: under a root called `foo\x2dbar.scope` - a delegated subtree with a
+systemd-escaped name - nothing resolved, not even the root itself; repaired by a `fix:` commit, see known_findings.txt.) -/
+theorem fs_root_is_literal (comp name : Str) : fnmatch (globEscape comp) name = true ↔ name = comp :=
+  fnmatch_globEscape comp name
+
+/-- ... and escaping adds no separator: the escaped root has the components of the root -/
+theorem fs_root_escape_keeps_separators (fs : Str) : (globEscape fs).count '/' = fs.count '/' := by
+  induction fs with
+  | nil => rfl
+  | cons c cs ih =>
+    have hcons : globEscape (c :: cs) = escChar c ++ globEscape cs := by simp [globEscape]
+    rw [hcons, List.count_append, ih]
+    unfold escChar
+    split
+    · rename_i h
+      have hc : c ≠ '/' := by
+        intro e; subst e; simp at h
+      simp [hc]
+    · simp [List.count_cons]; omega
+
+/-- `f\\s` and `f[s]` as root names: escaped they match themselves (`fs_root_is_literal`); unescaped, `f\\s` does not match
+itself and `f[s]` matches the other directory `fs` and not itself -/
+example : fnm ['f', '\\', 's'] ['f', '\\', 's'] = false ∧ fnm ['f', '[', 's', ']'] ['f', 's'] = true ∧
+    fnm ['f', '[', 's', ']'] ['f', '[', 's', ']'] = false := by
+  set_option linter.unusedSimpArgs false in
+  refine ⟨?_, ?_, ?_⟩ <;> simp [fnm, closeIdx, firstClose, classMatch, classItems]
+
 end C16
